@@ -25,7 +25,8 @@ class ConsumerError(Exception):
 
 
 class World:
-    def __init__(self, shape):
+    def __init__(self, shape, looped=False):
+        self.looped = looped      # producer threads that run an event loop of their own (a notebook, asyncio.run, a web handler)
         self.lock = threading.Lock()
         self.ev = []
         self.futs = {}          # producer -> Future of its element at the consumer
@@ -69,6 +70,15 @@ class World:
             except Exception as e:      # noqa
                 kind = "other:" + type(e).__name__
             self.log(ev="Return", p=p, k=k, kind=kind)
+        if self.looped:
+            inner = body
+
+            def body():       # noqa: F811
+                import asyncio
+
+                async def main():
+                    inner()   # the blocking emit, called from inside this thread's own running loop
+                asyncio.run(main())
         t = threading.Thread(target=body, daemon=True)
         self.threads[p] = t
         t.start()
@@ -105,8 +115,8 @@ class World:
             return sorted(self.futs)
 
 
-def run(shape, np_, nc, script):
-    w = World(shape)
+def run(shape, np_, nc, script, looped=False):
+    w = World(shape, looped)
     for op in script:
         if op[0] == "call":
             w.call(op[1])
@@ -116,7 +126,7 @@ def run(shape, np_, nc, script):
     for p in w.suspended():
         w.finish([p], set())
     w.log(ev="End")
-    return {"shape": shape, "np": np_, "nc": nc, "script": [list(o) for o in script], "ev": w.ev}
+    return {"shape": shape + ("+looped-producers" if looped else ""), "np": np_, "nc": nc, "script": [list(o) for o in script], "ev": w.ev}
 
 
 def scripts(np_, nc, rng, count):
@@ -171,6 +181,9 @@ def main():
         for perm in itertools.permutations(range(1, np_ + 1)):
             for bad in ([], [perm[0]], [perm[-1]]):
                 runs.append(run("direct", np_, 2, [("call", p) for p in range(1, np_ + 1)] + [("finish", list(perm), bad)]))
+    # producer threads that run an event loop of their own: the blocking emit still blocks them
+    for s in scripts(2, 2, rng, 15 if a.tier == "quick" else 150):
+        runs.append(run("direct", 2, 2, s, looped=True))
     n = 40 if a.tier == "quick" else 400
     for shape in ("direct", "map", "filter_map"):
         for np_ in (2, 3):
